@@ -543,9 +543,17 @@ fn c07_skels() -> Vec<Skel> {
 }
 fn c07_k(t: Tier, sk: Skel) -> usize {
     match t {
-        Tier::Quick => 1,
+        Tier::Quick => {
+            if sk.paras * sk.fields == 1 {
+                2
+            } else {
+                1
+            }
+        }
         Tier::Thorough => {
-            if sk.paras * sk.fields <= 2 {
+            if sk.paras * sk.fields == 1 {
+                3
+            } else if sk.paras * sk.fields <= 2 {
                 2
             } else {
                 1
